@@ -40,7 +40,7 @@ def gen_cases(rng, tier):
     big = [1001, 2000, 5000] if tier == "thorough" and rng.random() < 0.05 else []
     model = spec.gen_pair_model(rng, groute, target="LAMMPS", nr_choices=[3, 4, 5, 8, 11, 21, 50, 101, 200, 400] + big)
     if route.startswith("api"):
-      model["api_variant"] = rng.choice([None, None, "tuple", "int_cutoff", "kwargs", "realfile"])
+      model["api_variant"] = rng.choice([None, None, "tuple", "int_cutoff", "kwargs", "realfile", "amend_after_write"])
       if model["api_variant"] == "int_cutoff":
         model["tab"]["cutoff"] = float(rng.randint(1, 20))
     cases.append({"route": route, "model": model, "style": rng.randrange(1 << 30)})
@@ -56,17 +56,28 @@ def gen_cases(rng, tier):
     cases.append({"route": route, "model": model, "style": rng.randrange(1 << 30), "root_on_grid": k, "root_variant": rv})
   # a discontinuity exactly ON a row of a grid that is exact in doubles (first row, interior, last row = cutoff), and a
   # table form whose data points are the rows themselves: the row is on a definite side, judged strictly
-  for i in range(14 if tier == "quick" else 140):
+  for i in range(28 if tier == "quick" else 196):
     v = spec.EXACT_BOUNDARY_VARIANTS[i % len(spec.EXACT_BOUNDARY_VARIANTS)]
-    model, k = spec.exact_boundary_model(rng, "LAMMPS", v)
-    route = ["potable", "cli", "potable", "api_class"][(i + i // 7) % 4]
-    if v.endswith("table") and route == "api_class":
-      route = "potable"
+    route = ["potable", "cli", "api_legacy", "api_class"][(i + i // 7) % 4]
+    model, k = spec.exact_boundary_model(rng, "LAMMPS", v, shared=route.startswith("api"))
     cases.append({"route": route, "model": model, "style": rng.randrange(1 << 30), "exact_boundary": v, "root_on_grid": k})
+  # row-count sweep (everything small, m*10^k, 2^k, multiples of 5000, each with neighbours): structure and end values
+  szs = spec.edge_sizes(tier, multiple_of=1, lo=3)
+  for c0 in range(0, len(szs), 12):
+    cases.append({"kind": "sizes", "sizes": szs[c0:c0 + 12], "route": "api_legacy", "model": None, "style": 0})
   return cases
 
 
 def run_case(case, ctx):
+  if case.get("kind") == "sizes":
+    import sizesweep
+    ctx.cls("kind:row_count_sweep")
+    for n_ in case["sizes"]:
+      ctx.cls(sizesweep.size_class(n_))
+      if not (sizesweep.check_lammps(ctx, n_)):
+        return
+    ctx.nontrivial(True)
+    return
   model = case["model"]
   route = case["route"]
   groute = "api" if route.startswith("api") else "potable"
@@ -121,6 +132,8 @@ def run_case(case, ctx):
       with monitors.PotentialTrace(log):
         if route == "api_class":
           tab = routes.pair_tab_api(model)
+          if model.get("api_variant") == "amend_after_write":
+            del log.events[:]     # the first (incomplete) write is not the one under observation
           pots = tab.potentials
           text = routes.write_to_real_file(tab.write) if model.get("api_variant") == "realfile" else routes.write_tab(tab)
           ctx.cls("api_variant:%s" % model.get("api_variant"))
